@@ -658,6 +658,32 @@ func checkTypedDoc(c TypedDocCase, r *Recorder) error {
 			return errf("Changes.AbsFiles() = %q, want %q", abs, c.Acc["AbsFiles"])
 		}
 	case "control":
+		if len(c.Text)%4 == 0 {
+			// the file-based entry point
+			if f, ferr := os.CreateTemp("", "c10-control-*"); ferr == nil {
+				f.WriteString(c.Text)
+				f.Close()
+				fromFile, err := control.ParseControlFile(f.Name())
+				os.Remove(f.Name())
+				if err != nil {
+					return errf("ParseControlFile rejected %q: %v", c.Text, err)
+				}
+				if abs, _ := filepath.Abs(f.Name()); fromFile.Filename != abs {
+					return errf("ParseControlFile: Filename = %q, want %q", fromFile.Filename, abs)
+				}
+				if err := compareStruct(reflect.ValueOf(fromFile.Source), c.Exps[0], "ParseControlFile().Source"); err != nil {
+					return err
+				}
+				if len(fromFile.Binaries) != len(c.Exps)-1 {
+					return errf("ParseControlFile returned %d binary paragraphs, want %d", len(fromFile.Binaries), len(c.Exps)-1)
+				}
+				for i := range fromFile.Binaries {
+					if err := compareStruct(reflect.ValueOf(fromFile.Binaries[i]), c.Exps[i+1], "ParseControlFile().Binaries"); err != nil {
+						return err
+					}
+				}
+			}
+		}
 		ct, err := control.ParseControl(rd, c.Path)
 		if err != nil {
 			return errf("ParseControl rejected %q: %v", c.Text, err)
